@@ -26,6 +26,9 @@ import (
 	"time"
 
 	"go.pennock.tech/tabular"
+	"go.pennock.tech/tabular/csv"
+	"go.pennock.tech/tabular/html"
+	tjson "go.pennock.tech/tabular/json"
 )
 
 // ---------------------------------------------------------------- keys
@@ -159,6 +162,7 @@ type C12Op struct {
 	R   int       `json:"r,omitempty"`
 	D   int       `json:"d,omitempty"`
 	N   int       `json:"n,omitempty"`
+	How string    `json:"how,omitempty"` // touch: update-changed update-same text render-csv render-html render-json headers gostring
 }
 
 func (op C12Op) Coq() string {
@@ -185,6 +189,12 @@ func (op C12Op) Coq() string {
 		return fmt.Sprintf("AddRowItems %d", op.N)
 	case "takecol":
 		return fmt.Sprintf("TakeColumn %d", op.N)
+	case "addheaders":
+		return fmt.Sprintf("AddHeaders %d", op.N)
+	case "touch":
+		return "Touch " + op.O.Coq()
+	case "newcellof":
+		return "NewCellOf " + op.O.Coq()
 	}
 	panic("bad op " + op.Op)
 }
@@ -213,6 +223,28 @@ func (op C12Op) Go() string {
 		return fmt.Sprintf("t.AddRowItems(<%d items>)", op.N)
 	case "takecol":
 		return fmt.Sprintf("handle(new) := t.Column(%d)", op.N)
+	case "addheaders":
+		return fmt.Sprintf("t.AddHeaders(<%d items>)", op.N)
+	case "newcellof":
+		return fmt.Sprintf("det(new) := tabular.NewCell(*%s)", op.O)
+	case "touch":
+		switch op.How {
+		case "update-changed":
+			return fmt.Sprintf("%s.Item().(*mut).s += \"!\"; %s.Update()", op.O, op.O)
+		case "update-same":
+			return fmt.Sprintf("%s.Update()", op.O)
+		case "text":
+			return fmt.Sprintf("%s.String(); .Height(); .TerminalCellWidth(); .Lines()", op.O)
+		case "render-csv":
+			return "csv.Wrap(t).Render()"
+		case "render-html":
+			return "html.Wrap(t).Render()"
+		case "render-json":
+			return "json.Wrap(t).Render()"
+		case "headers":
+			return "t.Headers() (every header cell's String())"
+		}
+		return fmt.Sprintf("fmt.Sprintf(\"%%#v\", %s)", op.O)
 	}
 	return "?"
 }
@@ -224,6 +256,12 @@ type C12Spec struct {
 }
 
 // ---------------------------------------------------------------- the real library
+
+// what cells hold: an object whose text the caller can change (Cell.Update's
+// documentation asks the mutator to call Update afterwards)
+type c12mut struct{ s string }
+
+func (m *c12mut) String() string { return m.s }
 
 type c12Handle struct {
 	h   tabular.PropertyOwner
@@ -392,7 +430,7 @@ func (w *c12World) step(op C12Op) int {
 		w.dets = append(w.dets, &c2)
 		return c12OK
 	case "newcell":
-		c := tabular.NewCell("x")
+		c := tabular.NewCell(&c12mut{"x"})
 		w.dets = append(w.dets, &c)
 		return c12OK
 	case "newrow":
@@ -415,7 +453,7 @@ func (w *c12World) step(op C12Op) int {
 	case "additems":
 		items := make([]interface{}, op.N)
 		for i := range items {
-			items[i] = "x"
+			items[i] = &c12mut{"x"}
 		}
 		w.t.AddRowItems(items...)
 		all := w.t.AllRows()
@@ -428,6 +466,75 @@ func (w *c12World) step(op C12Op) int {
 			return c12Invalid
 		}
 		w.handles = append(w.handles, c12Handle{c, op.N})
+		return c12OK
+	case "addheaders":
+		items := make([]interface{}, op.N)
+		for i := range items {
+			items[i] = fmt.Sprintf("h%d", i)
+		}
+		w.t.AddHeaders(items...)
+		return c12OK
+	case "newcellof":
+		var p *tabular.Cell
+		switch op.O.K {
+		case "cell":
+			p = w.cellPtr(op.O.A, op.O.B)
+		case "det":
+			if op.O.A >= 0 && op.O.A < len(w.dets) {
+				p = w.dets[op.O.A]
+			}
+		}
+		if p == nil {
+			return c12Invalid
+		}
+		c := tabular.NewCell(*p)
+		w.dets = append(w.dets, &c)
+		return c12OK
+	case "touch":
+		po, _, ok := w.resolve(*op.O)
+		if !ok {
+			return c12Invalid
+		}
+		var p *tabular.Cell
+		switch op.O.K {
+		case "cell":
+			p = w.cellPtr(op.O.A, op.O.B)
+		case "det":
+			p = w.dets[op.O.A]
+		}
+		switch op.How {
+		case "update-changed":
+			if p != nil {
+				if m, ok := p.Item().(*c12mut); ok {
+					m.s += "!"
+				}
+				p.Update()
+			}
+		case "update-same":
+			if p != nil {
+				p.Update()
+			}
+		case "text":
+			if p != nil {
+				_ = p.String()
+				_ = p.Height()
+				_ = p.TerminalCellWidth()
+				_ = p.Lines()
+				_ = p.Empty()
+			}
+		case "render-csv":
+			_, _ = csv.Wrap(w.t).Render()
+		case "render-html":
+			_, _ = html.Wrap(w.t).Render()
+		case "render-json":
+			_, _ = tjson.Wrap(w.t).Render()
+		case "headers":
+			for _, c := range w.t.Headers() {
+				_ = c.String()
+			}
+		default:
+			_ = fmt.Sprintf("%#v", po)
+		}
 		return c12OK
 	}
 	panic("bad op")
@@ -749,6 +856,26 @@ func (a *c12Abs) step(op C12Op) int {
 		}
 		a.handles = append(a.handles, op.N)
 		return c12OK
+	case "addheaders":
+		if op.N > a.ncols {
+			a.ncols = op.N
+		}
+		return c12OK
+	case "touch":
+		if _, ok := a.canon(*op.O); !ok {
+			return c12Invalid
+		}
+		return c12OK
+	case "newcellof":
+		if op.O.K != "cell" && op.O.K != "det" {
+			return c12Invalid
+		}
+		if _, ok := a.canon(*op.O); !ok {
+			return c12Invalid
+		}
+		a.maps[fmt.Sprintf("det%d", a.ndets)] = map[int]int{}
+		a.ndets++
+		return c12OK
 	}
 	panic("bad op")
 }
@@ -850,6 +977,10 @@ func c12Classify(sp *C12Spec, obs []c12StepObs) (sig string, what string) {
 		if len(bad) > 0 {
 			what = fmt.Sprintf("after step %d (%s): %s", i, op.Go(), strings.Join(bad, "; "))
 			switch {
+			case op.Op == "touch" || op.Op == "addheaders" || op.Op == "newcellof" || op.Op == "get":
+				// nothing was set in this step at all
+				sig = "map-changed-without-a-set"
+				lenOnly = false
 			case ownBad:
 				sig = "owner-map-law"
 				lenOnly = false
@@ -948,6 +1079,7 @@ type c12Scenario struct {
 	needs  []int   // extra[i] usable only after extra[needs[i]] (-1: from the start)
 	watch  []C12Owner
 	minor  bool // plain independent owners: one step shorter
+	nkeys  int  // keys enumerated (default 3)
 }
 
 func c12Scenarios() []c12Scenario {
@@ -964,7 +1096,7 @@ func c12Scenarios() []c12Scenario {
 			a: own("det", 0), b: own("det", 1), bNeeds: 0,
 			extra: []C12Op{{Op: "copy", O: own("det", 0)}, {Op: "copy", O: own("det", 1)}}, needs: []int{-1, 0},
 			watch: []C12Owner{*own("det", 0), *own("det", 1), *own("det", 2)}},
-		{name: "handle-col1", prefix: []C12Op{{Op: "additems", N: 1}, {Op: "takecol", N: 1}},
+		{name: "handle-col1", minor: true, prefix: []C12Op{{Op: "additems", N: 1}, {Op: "takecol", N: 1}},
 			a: own("handle", 0), b: own("col", 1), bNeeds: -1,
 			extra: []C12Op{{Op: "additems", N: 25}}, needs: []int{-1},
 			watch: []C12Owner{*own("handle", 0), *own("col", 1), *own("col", 0), *own("col", 2)}},
@@ -972,6 +1104,25 @@ func c12Scenarios() []c12Scenario {
 			a: own("handle", 0), b: own("col", 0), bNeeds: -1,
 			extra: []C12Op{{Op: "additems", N: 25}}, needs: []int{-1},
 			watch: []C12Owner{*own("handle", 0), *own("col", 0), *own("col", 1), *own("table")}},
+		// a handle on a column that exists only because of the headers; the
+		// headers are then replaced by shorter / longer ones and the body grows
+		{name: "headers-handle", minor: true, prefix: []C12Op{{Op: "addheaders", N: 3}, {Op: "takecol", N: 3}},
+			a: own("handle", 0), b: own("col", 3), bNeeds: -1,
+			extra: []C12Op{{Op: "addheaders", N: 1}, {Op: "addheaders", N: 5}, {Op: "additems", N: 4}, {Op: "addheaders", N: 3}},
+			needs: []int{-1, -1, -1, 0},
+			watch: []C12Owner{*own("handle", 0), *own("col", 3), *own("col", 0), *own("col", 4)}},
+		// things that are not sets must leave every map alone
+		{name: "cell-untouched", minor: true, prefix: []C12Op{{Op: "additems", N: 1}},
+			a: own("cell", 0, 0), b: own("det", 0), bNeeds: 0,
+			extra: []C12Op{{Op: "copy", O: own("cell", 0, 0)},
+				{Op: "touch", O: own("cell", 0, 0), How: "update-changed"},
+				{Op: "touch", O: own("cell", 0, 0), How: "update-same"},
+				{Op: "touch", O: own("det", 0), How: "update-changed"},
+				{Op: "newcellof", O: own("cell", 0, 0)},
+				{Op: "touch", O: own("table"), How: "render-csv"},
+				{Op: "addheaders", N: 2}},
+			needs: []int{-1, -1, -1, 0, -1, -1, -1},
+			watch: []C12Owner{*own("cell", 0, 0), *own("det", 0), *own("det", 1), *own("row", 0), *own("col", 1)}},
 		{name: "table-row", minor: true, prefix: []C12Op{{Op: "additems", N: 1}},
 			a: own("table"), b: own("row", 0), bNeeds: -1,
 			watch: []C12Owner{*own("table"), *own("row", 0), *own("col", 0), *own("cell", 0, 0)}},
@@ -997,7 +1148,11 @@ func c12Enumerate(sc c12Scenario, n int, emit func(ops []C12Op, usedKeys int)) {
 			owners = append(owners, sc.b)
 		}
 		for _, o := range owners {
-			for k := 0; k <= used && k < 3; k++ {
+			nk := sc.nkeys
+			if nk == 0 {
+				nk = 3
+			}
+			for k := 0; k <= used && k < nk; k++ {
 				nu := used
 				if k == used {
 					nu = used + 1
@@ -1147,8 +1302,24 @@ func c12Random(r *RNG, hostile bool) C12Spec {
 				val++
 			}
 			push(C12Op{Op: "set", O: o, Key: pick(r, keys), V: v})
-		case p < 60:
+		case p < 57:
 			push(C12Op{Op: "get", O: pick(r, owners()), Key: pick(r, keys)})
+		case p < 60:
+			// not a set: must change nobody's map
+			switch r.Intn(4) {
+			case 0:
+				if cs := cellOwners(); len(cs) > 0 {
+					push(C12Op{Op: "touch", O: pick(r, cs), How: pick(r, []string{"update-changed", "update-changed", "update-same", "text"})})
+				}
+			case 1:
+				push(C12Op{Op: "touch", O: own("table"), How: pick(r, []string{"render-csv", "render-html", "render-json", "headers", "gostring"})})
+			case 2:
+				if cs := cellOwners(); len(cs) > 0 {
+					push(C12Op{Op: "newcellof", O: pick(r, cs)})
+				}
+			default:
+				push(C12Op{Op: "addheaders", N: r.Intn(a.ncols + 3)})
+			}
 		case p < 72:
 			if cs := cellOwners(); len(cs) > 0 {
 				push(C12Op{Op: "copy", O: pick(r, cs)})
@@ -1287,6 +1458,65 @@ func c12Hostile() []C12Spec {
 		ops = append(ops, C12Op{Op: "set", O: own("cell", 0, 0), Key: (depth + 1) % 4, V: 9})
 		ops = append(ops, C12Op{Op: "copy", O: own("cell", 0, 1)})
 		ops = append(ops, C12Op{Op: "set", O: own("det", 1), Key: (depth + 2) % 4, V: 0})
+		mk(ops)
+	}
+	// headers first / repeated / shorter / longer / empty, with a handle on every
+	// column taken while the table is that wide only because of its headers,
+	// then growth of the body back to that width and beyond
+	for _, w := range []int{2, 4} {
+		for _, body := range []int{0, 1} {
+			var ops []C12Op
+			if body > 0 {
+				ops = append(ops, C12Op{Op: "additems", N: body})
+			}
+			ops = append(ops, C12Op{Op: "addheaders", N: w})
+			for c := 0; c <= w; c++ {
+				ops = append(ops, C12Op{Op: "takecol", N: c}, C12Op{Op: "set", O: own("handle", c), Key: 0, V: c + 1})
+			}
+			ops = append(ops, C12Op{Op: "addheaders", N: 1}, C12Op{Op: "addheaders", N: 1}, C12Op{Op: "addheaders", N: 0})
+			ops = append(ops, C12Op{Op: "set", O: own("handle", w), Key: 1, V: 20})
+			ops = append(ops, C12Op{Op: "additems", N: w})
+			for c := 0; c <= w; c++ {
+				ops = append(ops, C12Op{Op: "set", O: own("col", c), Key: 2, V: 30 + c})
+			}
+			ops = append(ops, C12Op{Op: "addheaders", N: w + 2}, C12Op{Op: "addheaders", N: 2})
+			nr := 1 // rows made so far
+			if body > 0 {
+				nr = 2
+			}
+			ops = append(ops, C12Op{Op: "newrow"}, C12Op{Op: "newcell"}, C12Op{Op: "rowadd", R: nr, D: 0}, C12Op{Op: "addrow", R: nr})
+			for c := 0; c <= w; c += 2 {
+				ops = append(ops, C12Op{Op: "set", O: own("handle", c), Key: 0, V: 0})
+			}
+			mk(ops)
+		}
+	}
+	// loaded owners of every kind, then everything that is not a set
+	{
+		ops := []C12Op{{Op: "additems", N: 2}, {Op: "takecol", N: 2}}
+		loaded := []*C12Owner{own("table"), own("col", 0), own("col", 1), own("handle", 0), own("row", 0), own("cell", 0, 0), own("cell", 0, 1)}
+		for i, o := range loaded {
+			for k := 0; k < 3; k++ {
+				ops = append(ops, C12Op{Op: "set", O: o, Key: k, V: 3*i + k + 1})
+			}
+		}
+		ops = append(ops, C12Op{Op: "copy", O: own("cell", 0, 0)}) // det 0
+		for _, o := range []*C12Owner{own("cell", 0, 0), own("det", 0), own("cell", 0, 1)} {
+			for _, how := range []string{"text", "update-same", "update-changed", "gostring"} {
+				ops = append(ops, C12Op{Op: "touch", O: o, How: how})
+			}
+		}
+		for _, how := range []string{"render-csv", "render-html", "render-json", "headers", "gostring"} {
+			ops = append(ops, C12Op{Op: "touch", O: own("table"), How: how})
+		}
+		ops = append(ops, C12Op{Op: "addheaders", N: 2}, C12Op{Op: "touch", O: own("table"), How: "headers"},
+			C12Op{Op: "touch", O: own("table"), How: "render-json"},
+			C12Op{Op: "newcellof", O: own("cell", 0, 0)}, C12Op{Op: "newcellof", O: own("det", 0)},
+			C12Op{Op: "newrow"}, C12Op{Op: "newcell"}, C12Op{Op: "rowadd", R: 1, D: 0}, C12Op{Op: "rowadd", R: 1, D: 3},
+			C12Op{Op: "touch", O: own("cell", 1, 0), How: "update-changed"},
+			C12Op{Op: "addrow", R: 1}, C12Op{Op: "addheaders", N: 1}, C12Op{Op: "addheaders", N: 4},
+			C12Op{Op: "touch", O: own("det", 0), How: "update-changed"}, C12Op{Op: "touch", O: own("row", 0), How: "gostring"},
+			C12Op{Op: "touch", O: own("col", 1), How: "gostring"})
 		mk(ops)
 	}
 	// handles for every column of a 9-column table, growth by one column at a time
@@ -1497,6 +1727,11 @@ func c12Shrink(spec json.RawMessage) []json.RawMessage {
 			ops[i].N = 0
 			emit(ops, sp.Watch)
 		}
+		if op.Op == "addheaders" && op.N > 0 {
+			ops := append([]C12Op{}, sp.Ops...)
+			ops[i].N = op.N - 1
+			emit(ops, sp.Watch)
+		}
 	}
 	for i := range sp.Watch {
 		w := append(append([]C12Owner{}, sp.Watch[:i]...), sp.Watch[i+1:]...)
@@ -1508,7 +1743,7 @@ func c12Shrink(spec json.RawMessage) []json.RawMessage {
 func c12Size(sp *C12Spec) int {
 	n := 100*len(sp.Ops) + 3*len(sp.Watch) + len(sp.Keys)
 	for _, op := range sp.Ops {
-		if op.Op == "additems" {
+		if op.Op == "additems" || op.Op == "addheaders" {
 			n += op.N
 		}
 		if op.Op == "takecol" {
@@ -1584,12 +1819,12 @@ func init() {
 		CaseType: "c12_case",
 		CaseFn:   "C12_case",
 		ModelFn:  "C12_model",
-		Rule: "histories of {SetProperty v, SetProperty nil, GetProperty, c2 := *cell, NewCell, NewRow, Row.Add(copy) on a row not yet in the table, AddRow, AddRowItems (growth to 25 columns), t.Column(n) handle taken and used later} " +
+		Rule: "histories of {SetProperty v, SetProperty nil, GetProperty, c2 := *cell, NewCell, NewCell(cell), NewRow, AddHeaders (first / repeated / shorter / longer / empty), things that are not sets and must change nobody's map (Cell.Update after mutating the item - text changed or not -, String/Height/Lines, CSV / HTML / JSON renders, Headers(), %#v), Row.Add(copy) on a row not yet in the table, AddRow, AddRowItems (growth to 25 columns), t.Column(n) handle taken and used later} " +
 			"over owners table / column n incl. 0 / handle / row / cell through CellAt / detached cell copy, keys from {int 1, int64 1, \"1\", two pointers, two struct keys, int 2, and pointer keys of different types holding the same address: &struct / &struct.firstField, a named pointer type / *T, (*int)(nil) / (*string)(nil), pointers to two zero-size types} plus, for the deep-chain stream, the values 3..10 as int / int64 / string / pointer / struct / uint8 / float64 / named int32; " +
 			"after every step every watched owner is read under every key and its chain length is read off %#v; every history runs in a process of its own (package-level state cannot leak between cases; a fatal crash such as a stack overflow on a cyclic chain is an observation, not a harness failure); " +
-			"every history of exactly 4 (thorough: 5) steps after a fixed prefix in the 4 two-owner scenarios with sharing or a handle (cell copy, Row.Add of a copy, copy of a copy, handle across growth) and of 3 (4) steps in the 3 scenarios with plain independent owners (keys in order of first use, concrete key triple rotating), deterministic deep-chain / re-set / Row.Add / per-column-handle histories, a deep-chain stream (one owner of every kind - table, column 0, column n, handle held across growth, row in and out of the table, cell, detached copy - loaded with 18-40 distinct keys of eight dynamic types, then set nil / re-set / nil-then-set of the newest, 16th-20th, middle and oldest links, for cells alternately through a by-value copy; 24 keys re-set round-robin twice then all set to nil), and random histories with growth in the middle; " +
+			"every history of exactly 4 (thorough: 5) steps after a fixed prefix in the 3 two-owner scenarios with sharing (cell copy, Row.Add of a copy, copy of a copy) and of 3 (4) steps in the scenarios with a handle held across growth to 25 columns (column 1, column 0), a handle on a headers-only column across AddHeaders shorter / longer and body growth, a cell and its copy under non-set operations (Update after mutating the item, renders, NewCell(cell), AddHeaders), and plain independent owners (keys in order of first use, concrete key triple rotating), deterministic deep-chain / re-set / Row.Add / per-column-handle histories, a deep-chain stream (one owner of every kind - table, column 0, column n, handle held across growth, row in and out of the table, cell, detached copy - loaded with 18-40 distinct keys of eight dynamic types, then set nil / re-set / nil-then-set of the newest, 16th-20th, middle and oldest links, for cells alternately through a by-value copy; 24 keys re-set round-robin twice then all set to nil), and random histories with growth in the middle; " +
 			"non-trivial = at least one non-nil set took effect; distinct = distinct (history, trace)",
-		Exhaustive: "all histories of exactly 4 (thorough 5) steps over 2 owners x 3 keys x {set fresh value, set nil} + the scenario's structural ops (copy / Row.Add / AddRow / growth to 25 columns), in 4 scenarios; one step shorter in 3 scenarios with plain independent owners",
+		Exhaustive: "all histories of exactly 4 (thorough 5) steps over 2 owners x 3 keys x {set fresh value, set nil} + the scenario's structural ops (copy / Row.Add / AddRow / growth to 25 columns), in 3 sharing scenarios; one step shorter in 7 scenarios (handles across growth / header replacement, non-set operations, plain independent owners)",
 		Gen: func(r *RNG, tier string) []json.RawMessage {
 			var out []json.RawMessage
 			n := 4
